@@ -16,7 +16,9 @@ m = {
   "add_only": True,
  },
  "engines": [
-  {"name": "vcheck", "path": "mc/cmd/vcheck", "serves_properties": [c["id"] for c in CHECKS],
+  {"name": "vsc", "path": "mc/cmd/vsc", "serves_properties": [c["id"] for c in CHECKS if c.get("engine") == "vsc"],
+   "kind_free_text": "stateless model checker for the interpreter: mc/instr rewrites interp's concurrency primitives (from the working tree, at check time) to go through the controlled scheduler mc/shim/vsched; DFS over schedules with iterative preemption bounding, every execution under the Go race detector"},
+  {"name": "vcheck", "path": "mc/cmd/vcheck", "serves_properties": [c["id"] for c in CHECKS if c.get("engine", "vcheck") == "vcheck"],
    "kind_free_text": "bounded-exhaustive enumeration of inputs/configurations/histories/schedules run against the real code with a deterministic oracle on every element"},
  ],
  "checks": [],
@@ -30,7 +32,7 @@ for c in CHECKS:
         "thorough_cmd": "/verif/run.sh %s --tier thorough" % c["id"],
         "evidence_file": "/verif/evidence/%s.json" % c["id"],
         "replay_cmd_template": "/verif/run.sh %s --replay {path}" % c["id"],
-        "engine": "vcheck",
+        "engine": c.get("engine", "vcheck"),
         "level_claimed": {"category": c["level"], "text": c["text"], "design_ref": c.get("ref", "DESIGN.md §3 " + c["id"])},
         "level_note": c["note"],
         "technique": c["technique"],
